@@ -89,7 +89,7 @@ func varOf(param interp.Value) (vr *interp.Opaque, v *interp.Struct) {
 	if v == nil {
 		return nil, nil
 	}
-	vr, _ = v.Fields["vr"].(*interp.Opaque)
+	vr, _ = v.Aux["vr"].(*interp.Opaque)
 	return vr, v
 }
 
